@@ -437,6 +437,19 @@ Theorem C19_lru_decorated_functions_are_independent :
 Proof. intros A K R key keqb f valid mx. exact (lru_functions_independent A K R key keqb f valid mx). Qed.
 Print Assumptions C19_lru_decorated_functions_are_independent.
 
+(* ------------------------- round 6: DataFrame.column_names / columncount as a session over objects ------------------------- *)
+(* Model/C19.v, df_run: schema objects are created, frames are built ON a schema object, both properties are looked up on
+   frames in any order; each property is one single-item cache shared by all frames and keyed by the frame.  As long as no
+   schema object is changed in place the caches are unobservable: every lookup answers what the frame's own schema object
+   spells (df_spec has no cache) - whichever frame was asked before, also for frames sharing a schema object and for frames
+   whose schemas compare equal.  (With in-place changes the model serves the value held for the SAME frame, like any
+   memoised function that reads mutable state; the correspondence compares those sessions too.) *)
+Theorem C19_df_lookups_answer_the_frames_own_schema :
+  forall ops : list dfop,
+  existsb df_inplace ops = false -> snd (df_run df_init ops) = snd (df_spec df_init ops).
+Proof. exact df_cache_unobservable. Qed.
+Print Assumptions C19_df_lookups_answer_the_frames_own_schema.
+
 (* ------------------------- non-vacuity ------------------------- *)
 Definition ex_a : carg := ([1%Z], []).
 Definition ex_b : carg := ([0%Z], []).
@@ -564,4 +577,11 @@ Example ex_two_decorated_functions :
       (snd (multi_run (msic_call ckey_of ckeqb mcf None) sic_tick (repeat (sic_init 1000) 2)
               [MCall 0 ex_a; MCall 1 ex_a; MCall 0 ex_a; MCall 1 ex_a; MCall 1 ex_b; MCall 0 ex_a]))
   = [(0, false, 0%N); (1, false, 0%N); (0, true, 0%N); (1, true, 0%N); (1, false, 1%N); (0, true, 0%N)].
+Proof. reflexivity. Qed.
+
+(* round 6: two frames on one header list that is extended in between; and ==-equal schemas spelling different names *)
+Example ex_df_session :
+  snd (df_run df_init [DSchema [0; 1]%Z; DFrame 0; DNames 0; DApp 0 10%Z; DFrame 0; DNames 1; DCount 1; DNames 0; DNames 0;
+                       DSchema [3; 8]%Z; DFrame 1; DSchema [4; 9]%Z; DFrame 2; DNames 2; DNames 3])
+  = [ONames [0; 1]%Z; ONames [0; 1; 10]%Z; OCount 3; ONames [0; 1; 10]%Z; ONames [0; 1; 10]%Z; ONames [3; 8]%Z; ONames [4; 9]%Z].
 Proof. reflexivity. Qed.
